@@ -9,6 +9,8 @@ mod common;
 mod envelope;
 mod fairness;
 mod framing;
+mod idl;
+mod idlref;
 mod jsoneq;
 mod limits;
 mod outframe;
@@ -64,6 +66,8 @@ fn main() {
         "cancel" => framing::run_c07(tier),
         "outframe" => outframe::run(tier),
         "limits" => limits::run(tier),
+        "idlparse" => idl::run_c13(tier),
+        "idlround" => idl::run_c14(tier),
         "envelope" => envelope::run(tier),
         "classify" => classify::run(tier),
         "jsoneq" => jsoneq::run(tier),
@@ -85,6 +89,7 @@ fn replay(v: &Value, path: &str) -> i32 {
         "C02" => outframe::replay(v),
         "C06" | "C11" => chain::replay(v),
         "C17" => limits::replay(v),
+        "C13" | "C14" => idl::replay(v),
         "C05" => envelope::replay(v),
         "C04" => classify::replay(v),
         "C03" => jsoneq::replay(v),
